@@ -262,7 +262,28 @@ def w_records_nokeys():
     return _diff_witness(f, data, "blocks-to-rows convert_records without record keys")
 
 
+def w_nullable_predicate():
+    import pandas
+    from data_algebra.view_representations import TableDescription
+
+    sq = backends.Sqlite()
+    try:
+        l = pandas.DataFrame({"k": [1, 2, 3]})
+        r = pandas.DataFrame({"k": [1, 2], "b": [False, True]})
+        ops = TableDescription(table_name="l", column_names=["k"]).natural_join(
+            TableDescription(table_name="r", column_names=["k", "b"]), on=["k"], jointype="left").select_rows("b")
+        ref = ops.eval({"l": l, "r": r})
+        got = sq.run(ops, {"l": l, "r": r})
+        if sorted(ref["k"].tolist()) != sorted(got["k"].tolist()) or sorted(ref["k"].tolist()) != [2]:
+            return (f"select_rows('b') over a left join that leaves b missing on one row: Pandas keeps k={ref['k'].tolist()}, "
+                    f"SQLite keeps k={got['k'].tolist()} (b is true only for k=2)")
+        return None
+    finally:
+        sq.close()
+
+
 WITNESSES = {
+    "pandas-select_rows-on-logical-column-with-missing-values": w_nullable_predicate,
     "sql-convert_records-select_columns-returns-all-columns": w_records_select,
     "sql-convert_records-drop_columns-raises": w_records_drop,
     "sql-convert_records-without-record-keys-empty-group-by": w_records_nokeys,
